@@ -12,6 +12,7 @@
 import collections
 import os
 import random
+import re
 import sys
 from concurrent.futures import ThreadPoolExecutor
 from fractions import Fraction
@@ -24,6 +25,7 @@ from emit import Q2
 PROPS_A = "TfelVerif.C17.Props"
 K_MIN = "FixedSizeRowMajorMatrixIndexingPolicy::getUnderlyingArrayMinimalSize:Stride!=M"
 K_ARR = "FixedSizeIndexingPoliciesCartesianProduct::getIndex(array):second-policy-arity-0"
+K_DIV = "operator/=:integer-scalar"
 BAD_HAZARDS = ("matvec", "vecmat", "matmat", "transpose", "elementwise-overlap")
 
 
@@ -209,6 +211,8 @@ def hazard_key(P):
         bad = [h for h in hz if h in BAD_HAZARDS]
         if bad:
             return "aliasing:" + bad[0]
+    if any(op == "/=" and re.search(r"/= -?\d+;$", cxx) for (cxx, _, op, _) in P.stmts):
+        return K_DIV
     kinds = sorted({k.split(":")[1] for k in P.kinds if k.startswith("view:")})
     return "eager:" + ("+".join(kinds) if kinds else "objects")
 
@@ -279,7 +283,7 @@ def run(ck):
         P = by_name[name]
         key = hazard_key(P)
         reported[key] += 1
-        if reported[key] > 1 and key.startswith("aliasing:"):
+        if reported[key] > 1 and (key.startswith("aliasing:") or key == K_DIV):
             continue
         rep = dict(f)
         rep.update({"program": [s[0] for s in P.stmts], "declarations": [P.storages[s][1] for s in P.order] + P.decls,
@@ -290,6 +294,7 @@ def run(ck):
         ck.violation(key, "program `%s`: storage cell %s = %s, eager value %s%s"
                      % (" ".join(s[0] for s in P.stmts), f["output"], f["code_value_exact"], f["spec_value_exact"],
                         " (the lazy right-hand side reads an already overwritten cell)" if key.startswith("aliasing:") else
+                        " (`x /= s` multiplies by `1 / s`, computed in the type of `s`: 0 for an integer; patch: patches/C17-divide-by-integer-scalar.diff)" if key == K_DIV else
                         " (no harmful aliasing in this program: the expression templates or a view's cell map are wrong)"), rep, True)
     if not res.ok:
         # a program obligation that no longer checks: look for a failing input of that program (same key as a
